@@ -317,9 +317,20 @@ def evolvable_item(rec, tier):
     spec = t.dna_spec()
     before = snapshot(value)
     pop = [pg.random_dna(spec, ch)]
-    pop.append(pg.random_dna(spec, ch, previous_dna=pop[0]))
-    pop.append(pg.random_dna(spec, ch, previous_dna=pop[1]))
     errs = []
+    held = []
+    for step in (0, 1):
+      before_v = t.decode(pop[step])                 # a value the caller holds while the next DNA is derived from the same parent
+      before_j = repr(pg.to_json(before_v))
+      pop.append(pg.random_dna(spec, ch, previous_dna=pop[step]))
+      held.append((before_v, before_j))
+      again = repr(pg.to_json(t.decode(pop[step])))
+      fresh_j = repr(pg.to_json(pg.template(_evolve_value()).decode(pg.from_json(pop[step].to_json()))))
+      if repr(pg.to_json(before_v)) != before_j:
+        errs.append(('derivation-changed-a-decoded-value', f'deriving a DNA from member {step} changed the value decoded from it earlier'))
+      if again != fresh_j or again != before_j:
+        errs.append(('decode-changed-by-derivation', f'member {step} decodes to {again} after a DNA was derived from it; '
+                     f'before: {before_j}; on a fresh template: {fresh_j}'))
     decoded_first = [repr(pg.to_json(t.decode(d))) for d in pop]
     for i, d in enumerate(pop):
       fresh = pg.template(_evolve_value()).decode(pg.from_json(d.to_json()))
